@@ -15,6 +15,12 @@ package app_test
 //     times, unlock / withdraw; extend away).  The accumulation oracle queries every leaf boundary after every op.
 //   - +cl: locks of concentrated-liquidity share denominations cl/pool/<id>, created by the CL keeper
 //     (CreateFullRangePositionLocked / ...Unlocking), which x/lockup BURNS on withdrawal instead of paying out.
+//   - +names: the denomination ALPHABET gets names related to every string x/lockup (and the key layout it writes) treats
+//     specially (lockup_names_test.go): names that contain / end with / are a strict prefix or an extension of the CL share
+//     prefix `cl/pool`, of LP share names `gamm/pool/<id>`, of the synthetic-lock suffixes `/superbonding`, `/superunbonding`,
+//     of the native denomination, and of each other (prefix-related index keys and accumulation-store key ranges), one of
+//     them a real token-factory denomination `factory/<creator>/cl/pool/1`.  They are real bank denominations held by the
+//     owners and go through the whole life cycle like bar/foo/uosmo; every oracle runs for them.
 //   - keeper tail (lockup_tail_test.go): oracle-only ops of the keeper API other modules call (synthetic locks, slash, ...).
 //
 // The ORACLE keeps its own shadow list of locks (plain Go, updated from the meaning of each successful
@@ -81,11 +87,19 @@ type lockupEnv struct {
 	hist      []string                  // op lines of the current history's transactions (replay of an oracle failure)
 	denomDurs map[string]map[int64]bool // denomination -> every duration a lock of it had in this history
 	splitIn   map[bucket]bool           // buckets in which a lock was split by a partial begin-unlock
+	// +names (lockup_names_test.go)
+	dclass  map[string]string           // denomination -> name class (input distribution, failure keys)
+	look    []string                    // the related names of this history (subset of denoms)
+	burned  map[string]map[string]int64 // owner -> denomination -> units burned at withdrawal (HELD denominations carrying the CL share prefix)
+	supply0 map[string]osmomath.Int     // bank supply of every held denomination after funding
+	// keeper tail: real / synthetic denominations whose accumulation store a rebuild of a prefix denomination cleared (F55)
+	accWiped map[string]bool
 	// keeper tail (lockup_tail_test.go): synthetic locks
 	synth        map[uint64]*shSynth
 	synthDenoms  map[string]bool
 	synthCoded   map[string]map[int64]int64
 	synthCause   map[string]string
+	synthBase    map[string]string // synthetic denomination -> denomination of its underlying locks
 	pendingCause string
 }
 
@@ -95,13 +109,22 @@ type bucket struct {
 	dur   int64
 }
 
+// the property's meaning of "concentrated-liquidity share coin" (burned at withdrawal, never paid out): the name STARTS
+// with the CL share prefix.  (A name that merely contains it, ends with it, or is a strict prefix of it is an ordinary coin.)
 func isCLDenom(dn string) bool {
 	return strings.HasPrefix(dn, cltypes.ConcentratedLiquidityTokenPrefix)
 }
 
-// amount unit of a denomination: K, except CL shares (their amount is the liquidity the CL module computed)
+// share denomination of a CL pool of this history: minted by the CL keeper into the lock, held by no account.
+// (The +names alphabet also has HELD denominations with the CL prefix: funded like any coin, burned when withdrawn.)
+func (e *lockupEnv) isShare(dn string) bool {
+	_, ok := e.clPools[dn]
+	return ok
+}
+
+// amount unit of a denomination: K, except CL pool shares (their amount is the liquidity the CL module computed)
 func (e *lockupEnv) kOf(dn string) osmomath.Int {
-	if isCLDenom(dn) {
+	if e.isShare(dn) {
 		return osmomath.OneInt()
 	}
 	return e.K
@@ -376,7 +399,7 @@ type lq struct {
 var lqScope = map[string]string{"query:all": "g", "query:unlockingBeforeTime": "g", "query:unlockingAfterTime": "g",
 	"query:byOwner": "o", "query:byOwnerLongerDuration": "o", "query:byOwnerLongerDurationNotUnlocking": "o", "query:byOwnerDuration": "o",
 	"query:byOwnerPastTime": "o", "query:byOwnerUnlockedBeforeTime": "o",
-	"query:byDenomLongerDuration": "d", "query:byDenomPastTime": "d",
+	"query:byDenomLongerDuration": "d", "query:byDenomPastTime": "d", "query:locksDenom": "d",
 	"query:byOwnerDenom": "od", "query:byOwnerDenomNotUnlocking": "od", "query:byOwnerDenomDurationNotUnlocking": "od", "query:byOwnerDenomPastTime": "od"}
 
 func (e *lockupEnv) queries(owner, denom string, d int64, ts int64) []lq {
@@ -417,6 +440,10 @@ func (e *lockupEnv) queries(owner, denom string, d int64, ts int64) []lq {
 			}, "query:byOwnerDenomDurationNotUnlocking"},
 		{fmt.Sprintf("bydenom %s %d", denom, d), func() []uint64 { return lockIDs(k.GetLocksLongerThanDurationDenom(c, denom, dd)) },
 			func() []uint64 { return e.sel(func(l *shLock) bool { return l.denom == denom && l.dur >= dk }) }, "query:byDenomLongerDuration"},
+		// GetLocksDenom (LocksBalancesInvariant, the two accumulation rebuilds): every lock holding the denomination, each
+		// ONCE (ids are compared as a multiset); the model answers it as "at least 0 long"
+		{fmt.Sprintf("bydenom %s 0", denom), func() []uint64 { return lockIDs(k.GetLocksDenom(c, denom)) },
+			func() []uint64 { return e.sel(func(l *shLock) bool { return l.denom == denom }) }, "query:locksDenom"},
 		{fmt.Sprintf("unlockingbefore %d", ts), func() []uint64 { return e.iterIDs(k.LockIteratorBeforeTime(c, tm(ts))) },
 			func() []uint64 { return e.sel(func(l *shLock) bool { return unl(l) && l.end <= ts }) }, "query:unlockingBeforeTime"},
 		{fmt.Sprintf("unlockingafter %d", ts), func() []uint64 { return e.iterIDs(k.LockIteratorAfterTime(c, tm(ts))) },
@@ -490,7 +517,7 @@ func (e *lockupEnv) oracle(op string) {
 		if got := e.modBal(dn); got != sum {
 			e.o.Fail("modbal:after-"+op, fmt.Sprintf("denom %s module holds %d, live locks sum to %d", dn, got, sum))
 		}
-		if isCLDenom(dn) {
+		if e.isShare(dn) {
 			// CL shares are minted into the module account when the position is locked and burned when the lock is
 			// withdrawn: they exist nowhere but in live locks, and never reach an account
 			if sup := e.units(dn, e.h.App.BankKeeper.GetSupply(c, dn).Amount, "supply"); sup != sum {
@@ -503,9 +530,21 @@ func (e *lockupEnv) oracle(op string) {
 			}
 			continue
 		}
+		// held denominations: balance + locked = funded; the only exception is a held coin whose name carries the CL
+		// share prefix (burned at withdrawal, +names): balance + locked = funded - withdrawn.  The bank supply moves
+		// with those burns and with nothing else lockup does.
+		var burnt int64
 		for _, o := range e.names {
-			if got := e.bal(o, dn) + per[o]; got != e.funded[o][dn] {
-				e.o.Fail("conservation:after-"+op, fmt.Sprintf("owner %s denom %s balance+locked %d funded %d", o, dn, got, e.funded[o][dn]))
+			b := e.burned[o][dn]
+			burnt += b
+			if got := e.bal(o, dn) + per[o]; got != e.funded[o][dn]-b {
+				e.o.Fail("conservation:after-"+op, fmt.Sprintf("owner %s denom %s (%s) balance+locked %d, funded %d - burned at withdrawal %d%s", o, dn, e.classOf(dn), got, e.funded[o][dn], b, e.histStr()))
+				e.o.Fail("conservation:owner-balance-plus-locked:"+e.classOf(dn), fmt.Sprintf("after %s: owner %s denom %s balance+locked %d, funded %d - burned at withdrawal %d%s", op, o, dn, got, e.funded[o][dn], b, e.histStr()))
+			}
+		}
+		if s0, ok := e.supply0[dn]; ok {
+			if sup := e.h.App.BankKeeper.GetSupply(c, dn).Amount; !sup.Equal(s0.Sub(e.real(dn, burnt))) {
+				e.o.Fail("supply:changed-by-lockup:"+e.classOf(dn), fmt.Sprintf("after %s: denom %s supply %s, at funding %s, withdrawn coins with the CL share prefix %s%s", op, dn, sup, s0, e.real(dn, burnt), e.histStr()))
 			}
 		}
 	}
@@ -614,7 +653,11 @@ func (e *lockupEnv) accumOracle(op string) {
 				continue
 			}
 			if !got.Equal(e.real(dn, want)) {
-				e.o.Fail("accum:after-"+op, fmt.Sprintf("denom %s duration>=%d accumulation %s, live locks sum to %s%s", dn, d, got, e.real(dn, want), e.histStr()))
+				key := "accum:after-" + op
+				if e.accWiped[dn] { // keeper tail, F55: a rebuild of a prefix denomination cleared this denomination's store
+					key = "accum:drift:store-cleared-by-rebuild-of-prefix-denom"
+				}
+				e.o.Fail(key, fmt.Sprintf("denom %s duration>=%d accumulation %s, live locks sum to %s%s", dn, d, got, e.real(dn, want), e.histStr()))
 			}
 		}
 	}
@@ -1103,6 +1146,15 @@ func runLockup(t *testing.T, seed int64, n int, dir string) {
 		e.denomDurs = map[string]map[int64]bool{}
 		e.splitIn = map[bucket]bool{}
 		e.denoms = []string{"bar", "foo", "uosmo"}
+		e.dclass = map[string]string{}
+		e.look = nil
+		e.burned = map[string]map[string]int64{}
+		e.supply0 = map[string]osmomath.Int{}
+		e.accWiped = map[string]bool{}
+		e.clPools = map[string]uint64{}
+		if done == 0 {
+			e.namespaceProbe()
+		}
 		// magnitude classes (per history): amount unit K and a base added to the five durations
 		e.K = osmomath.OneInt()
 		kclass := "1"
@@ -1189,7 +1241,6 @@ func runLockup(t *testing.T, seed int64, n int, dir string) {
 		// history class "+cl": locks of concentrated-liquidity share denominations cl/pool/<id>, created the way the chain
 		// does (full-range position whose minted shares are locked by the CL keeper through CreateLockNoSend; the variant
 		// that starts unlocking at once is the balancer->CL migration path).  Such shares are burned, not paid out.
-		e.clPools = map[string]uint64{}
 		if r.Intn(100) < 35 {
 			e.class += "+cl"
 			for i := 0; i < 1+r.Intn(2); i++ {
@@ -1205,34 +1256,62 @@ func runLockup(t *testing.T, seed int64, n int, dir string) {
 			if e.many && r.Intn(3) == 0 {
 				cl := []string{}
 				for _, dn := range e.denoms {
-					if isCLDenom(dn) {
+					if e.isShare(dn) {
 						cl = append(cl, dn)
 					}
 				}
 				e.focus = cl[r.Intn(len(cl))]
 			}
 		}
+		// history class "+names": names related to the strings lockup treats specially (lockup_names_test.go)
+		if r.Intn(100) < 55 {
+			ns := e.pickNames(r)
+			if e.createNames(ns) {
+				e.class += "+names"
+				for _, x := range ns {
+					e.denoms = append(e.denoms, x.name)
+					e.look = append(e.look, x.name)
+					e.dclass[x.name] = x.class
+					o.Count("class.names.denom-class." + x.class)
+				}
+				sort.Strings(e.denoms)
+				if e.many && !e.isShare(e.focus) && r.Intn(2) == 0 {
+					e.focus = e.look[r.Intn(len(e.look))]
+				}
+			}
+		}
 		o.Count("class.history." + e.class)
+		o.Count(fmt.Sprintf("class.denominations-per-history.%d", len(e.denoms)))
 		if e.many {
-			o.Count("class.many-durations.focus." + map[bool]string{false: "ordinary-denom", true: "cl-share-denom"}[isCLDenom(e.focus)])
+			fc := map[bool]string{false: "ordinary-denom", true: "cl-share-denom"}[e.isShare(e.focus)]
+			if e.dclass[e.focus] != "" {
+				fc = "related-name." + e.dclass[e.focus]
+			}
+			o.Count("class.many-durations.focus." + fc)
 		}
 		var fund []string
 		for _, nm := range e.names {
 			e.funded[nm] = map[string]int64{}
+			e.burned[nm] = map[string]int64{}
 			for _, dn := range e.denoms {
-				if isCLDenom(dn) {
-					continue // nobody ever holds CL shares
+				if e.isShare(dn) {
+					continue // nobody ever holds CL pool shares
 				}
 				amt := int64(0)
 				if r.Intn(8) != 0 || dn == e.focus {
 					amt = int64(200 + r.Intn(3000))
 				}
 				if amt > 0 {
-					h.FundAcc(e.addrs[nm], sdk.NewCoins(e.coin(dn, amt)))
+					e.fundName(nm, dn, amt)
 				}
 				// whatever genesis gave the account counts as funding
 				e.funded[nm][dn] = e.bal(nm, dn)
 				fund = append(fund, fmt.Sprintf("%s %s %s", nm, dn, e.real(dn, e.funded[nm][dn])))
+			}
+		}
+		for _, dn := range e.denoms {
+			if !e.isShare(dn) {
+				e.supply0[dn] = h.App.BankKeeper.GetSupply(h.Ctx, dn).Amount
 			}
 		}
 		e.allowed = "-"
@@ -1288,8 +1367,14 @@ func runLockup(t *testing.T, seed int64, n int, dir string) {
 				owner = "X"
 			}
 			dn := e.denoms[r.Intn(len(e.denoms))]
+			if len(e.look) > 0 && r.Intn(5) < 2 { // +names: the related names take part in every kind of transaction
+				dn = e.look[r.Intn(len(e.look))]
+			}
 			if e.many && r.Intn(10) < 7 {
 				dn = e.focus
+			}
+			if len(e.look) > 0 && step > 5 && r.Intn(12) == 0 {
+				e.multiCoinBranch()
 			}
 			var line, obs, opk string
 			bucketsBefore := e.buckets()
@@ -1310,7 +1395,7 @@ func runLockup(t *testing.T, seed int64, n int, dir string) {
 				}
 			}
 			opk = pickWeighted(r, []string{"lock", "addtolock", "extend", "beginunlock", "beginunlockall", "unlock", "withdraw", "setreceiver", "forceunlock"}, weights)
-			if opk == "lock" && isCLDenom(dn) && r.Intn(8) != 0 {
+			if opk == "lock" && e.isShare(dn) && r.Intn(8) != 0 {
 				opk = "cllock" // the only way CL shares get locked; MsgLockTokens of a CL denomination (nobody holds any) is tried rarely
 			}
 			switch opk {
@@ -1722,6 +1807,7 @@ func runLockup(t *testing.T, seed int64, n int, dir string) {
 			o.Emit(line, obs, true)
 			e.hist = append(e.hist, line+" => "+obs)
 			o.Count("op." + opk + "." + strings.Fields(obs)[0])
+			e.countNames(opk, line, obs)
 			// input distribution: buckets (leaves of a denomination's accumulation tree) that this transaction emptied, and
 			// whether that tree has inner levels (more distinct durations than the fan-out ever used for the denomination)
 			for _, l := range e.shadow {
@@ -1735,8 +1821,10 @@ func runLockup(t *testing.T, seed int64, n int, dir string) {
 				for b, c := range bucketsBefore {
 					if c > 0 && after[b] == 0 {
 						cls := "ordinary-denom"
-						if isCLDenom(b.denom) {
+						if e.isShare(b.denom) {
 							cls = "cl-share-denom"
+						} else if e.dclass[b.denom] != "" {
+							cls = "related-name"
 						}
 						o.Count("bucket-emptied.by-" + opk + "." + cls)
 						if len(e.denomDurs[b.denom]) > 10 {
@@ -1763,7 +1851,11 @@ func runLockup(t *testing.T, seed int64, n int, dir string) {
 						exp[sl.owner+"/"+sl.denom] += sl.amt
 					} else {
 						o.Count("released.cl-shares-burned.by-" + opk)
+						if !e.isShare(sl.denom) { // a HELD coin with the CL share prefix (+names): gone from the owner's funds
+							e.burned[sl.owner][sl.denom] += sl.amt
+						}
 					}
+					o.Count("released." + e.classOf(sl.denom) + ".by-" + opk)
 					if !forced && (sl.end == 0 || now < sl.end || sl.end != sl.begin+sl.dur) {
 						o.Fail("early-unlock:"+opk, fmt.Sprintf("%s released lock %d at %d, unlock start %d + duration %d", line, sl.id, now, sl.begin, sl.dur))
 					}
@@ -1772,6 +1864,11 @@ func runLockup(t *testing.T, seed int64, n int, dir string) {
 					for _, d := range e.denoms {
 						if got := e.bal(nm, d) - before[nm+"/"+d]; got != exp[nm+"/"+d] {
 							o.Fail("wrong-recipient:"+opk, fmt.Sprintf("%s: %s %s balance moved by %d, released locks give %d", line, nm, d, got, exp[nm+"/"+d]))
+							if got < exp[nm+"/"+d] {
+								o.Fail("release:coins-not-returned-to-owner:"+e.classOf(d), fmt.Sprintf("%s: the released locks of %s hold %s %s, the balance moved by %s%s", line, nm, e.real(d, exp[nm+"/"+d]), d, e.real(d, got), e.histStr()))
+							} else if isCLDenom(d) {
+								o.Fail("release:cl-share-paid-out:"+e.classOf(d), fmt.Sprintf("%s: %s received %s %s%s", line, nm, e.real(d, got), d, e.histStr()))
+							}
 						}
 					}
 				}
